@@ -139,6 +139,17 @@ pub fn install_panic_hook_verbose() {
 pub fn last_panic() -> String {
     LAST_PANIC.with(|p| p.borrow().clone())
 }
+/// Signature for a panic caught while a case was executing: a panic raised by the harness's own
+/// code (location `src/...`, the harness crate is built from its own directory; the library
+/// is a path dependency and reports absolute paths) is an infrastructure problem (exit 2), never a
+/// verdict about the library.
+pub fn panic_signature() -> &'static str {
+    let p = last_panic();
+    match p.rsplit(" at ").next() {
+        Some(loc) if loc.starts_with("src/") => "INFRA",
+        _ => "panic",
+    }
+}
 
 /// Run `f`, converting a panic into `Err(message)`.
 pub fn guarded<T>(f: impl FnOnce() -> T) -> Result<T, String> {
@@ -304,7 +315,7 @@ where
             Err(_) => {
                 let case = c.current.clone().unwrap_or_else(|| json!({ "raw": format!("{:?}", v) }));
                 let what = format!("panic: {}", last_panic());
-                c.fail("panic", what, case)
+                c.fail(panic_signature(), what, case)
             }
         }
     };
@@ -356,7 +367,7 @@ pub fn run_one(ctx: &mut Ctx, check: impl FnOnce(&mut Ctx) -> Result<(), Violati
         Err(_) => {
             let case = ctx.current.clone().unwrap_or(Value::Null);
             let what = format!("panic: {}", last_panic());
-            ctx.fail("panic", what, case)
+            ctx.fail(panic_signature(), what, case)
         }
     }
 }
